@@ -47,7 +47,7 @@ RULE = (
     "source's own events, or a same-instant tie was resolved, or (lastpair) some element has age = duration at completion or a variant exists); "
     "distinct = (instance, timeline)"
 )
-BUDGET = {"quick": 180.0, "thorough": 2400.0}
+BUDGET = {"quick": 300.0, "thorough": 2400.0}
 
 GAPS = (0, 5, 10, 15)
 SPAN = 303
